@@ -1,4 +1,5 @@
 from __future__ import annotations
+import math
 import numpy as np
 from numpy.typing import NDArray
 
@@ -49,10 +50,13 @@ def _create_mesh(
     _max_shifts = np.asarray(max_shifts, dtype=np.float32)
     left = -shifts - _max_shifts
     right = -shifts + _max_shifts
+    # Round inwards so that the refined shift never exceeds `max_shifts` (with a small
+    # tolerance for the float32 representation of limits that lie on the 1/20 grid).
+    _eps = 1e-4
     local_shifts = [
         [
-            int(round(max(float(shiftl), -1.0) * UPSAMPLE)),
-            int(round(min(float(shiftr), 1.0) * UPSAMPLE)),
+            int(math.ceil(max(float(shiftl), -1.0) * UPSAMPLE - _eps)),
+            int(math.floor(min(float(shiftr), 1.0) * UPSAMPLE + _eps)),
         ]
         for shiftl, shiftr in zip(left, right)
     ]
